@@ -37,23 +37,49 @@ End ssel_ind2.
 Fixpoint plain (s : ssel) {struct s} : bool :=
   match s with
   | SanField _ _ ty _ sub =>
-      match sub with
-      | [] => true
-      | _ => negb (is_root ty) && (fix all (l : list ssel) := match l with [] => true | x :: r => plain x && all r end) sub
-      end
+      negb (is_root ty) && (fix all (l : list ssel) := match l with [] => true | x :: r => plain x && all r end) sub
   | SanFrag _ _ _ _ => false
   end.
 Lemma plain_all sub : (fix all (l : list ssel) := match l with [] => true | x :: r => plain x && all r end) sub = forallb plain sub.
 Proof. induction sub as [|x r IH]; cbn [forallb]; [reflexivity|]. rewrite IH. reflexivity. Qed.
-Lemma plain_field a n ty d x sub : plain (SanField a n ty d (x :: sub)) = negb (is_root ty) && forallb plain (x :: sub).
+Lemma plain_field a n ty d sub : plain (SanField a n ty d sub) = negb (is_root ty) && forallb plain sub.
 Proof. cbn [plain]. rewrite plain_all. reflexivity. Qed.
 
 Definition is_sfield (s : ssel) : bool := match s with SanField _ _ _ _ _ => true | SanFrag _ _ _ _ => false end.
 
+Lemma update_first_plain a f s : (forall l, forallb plain l = true -> forallb plain (f l) = true) ->
+  forallb plain s = true -> forallb plain (update_first a f s) = true.
+Proof.
+  intros Hf. induction s as [|e r IH]; intros H; [reflexivity|]. cbn [forallb] in H. apply andb_true_iff in H as [He Hr].
+  destruct e as [a' n' ty' d' sub'|c o fd sub']; cbn [update_first]; [|cbn in He; discriminate].
+  rewrite plain_field in He. apply andb_true_iff in He as [Hroot Hsub].
+  destruct (a' =? a); cbn [forallb]; rewrite plain_field, Hroot; cbn [andb].
+  - rewrite (Hf _ Hsub), Hr. reflexivity.
+  - rewrite Hsub, (IH Hr). reflexivity.
+Qed.
+Lemma go_plain (l : list ssel) :
+  Forall (fun x => forall s, plain x = true -> forallb plain s = true -> forallb plain (add_sel x s) = true) l ->
+  forallb plain l = true -> forall acc, forallb plain acc = true ->
+  forallb plain ((fix go (l : list ssel) (acc : list ssel) := match l with [] => acc | y :: r => go r (add_sel y acc) end) l acc) = true.
+Proof.
+  induction l as [|z r IHl]; intros HF Hl acc Hacc; [exact Hacc|].
+  inversion HF as [|? ? Hz Hr]; subst. cbn [forallb] in Hl. apply andb_true_iff in Hl as [Hpz Hpr].
+  apply (IHl Hr Hpr). apply Hz; assumption.
+Qed.
+(* merging a fragment-free selection into a fragment-free selection set leaves it fragment-free, at every depth *)
+Lemma add_sel_plain : forall x s, plain x = true -> forallb plain s = true -> forallb plain (add_sel x s) = true.
+Proof.
+  induction x as [a n ty d sub IH|c o fd sub IH] using ssel_ind2; intros s Hx Hs; [|cbn in Hx; discriminate].
+  cbn [add_sel]. destruct (has_key s a).
+  - destruct sub as [|y sub']; [exact Hs|]. apply update_first_plain; [|exact Hs].
+    rewrite plain_field in Hx. apply andb_true_iff in Hx as [_ Hsub].
+    intros l Hl. apply (go_plain (y :: sub') IH Hsub l Hl).
+  - rewrite forallb_app, Hs. cbn [forallb andb]. rewrite Hx. reflexivity.
+Qed.
 Lemma add_to_result_plain s new : forallb plain s = true -> forallb plain new = true -> forallb plain (add_to_result s new) = true.
 Proof.
-  intros Hs Hn. unfold add_to_result. rewrite forallb_app, Hs. cbn [andb]. apply forallb_forall. intros x Hx.
-  apply filter_In in Hx as [Hx _]. rewrite forallb_forall in Hn. apply Hn, Hx.
+  unfold add_to_result. revert s. induction new as [|x r IH]; intros s Hs Hn; [exact Hs|]. cbn [fold_left]. cbn [forallb] in Hn.
+  apply andb_true_iff in Hn as [Hx Hr]. apply IH; [apply add_sel_plain; assumption|exact Hr].
 Qed.
 
 Lemma add_scrub_plain tm sc ss t fr : forallb plain ss = true -> forallb plain (fst (add_scrub_fields tm sc ss t fr)) = true.
@@ -88,7 +114,7 @@ Proof.
       pose proof (add_scrub_plain tm sc child ty false Hchild) as Hc'.
       destruct (add_scrub_fields tm sc child ty false) as [child' added]. cbn [fst] in *.
       apply add_to_result_plain; [exact Hr|]. cbn [forallb]. rewrite andb_true_r.
-      destruct child' as [|z child'']; [reflexivity|]. rewrite plain_field, Hroot, Hc'. reflexivity.
+      rewrite plain_field, Hroot, Hc'. reflexivity.
   - cbn in Hp. discriminate.
 Qed.
 
